@@ -29,7 +29,8 @@ import terms  # noqa: E402
 import tlc  # noqa: E402
 
 PID = "C02"
-SITE_ERR = {"arg": "wrong-arg-types", "ret": "bad-return-type", "assign": "annotation-type-mismatch"}
+SITE_ERR = {"arg": "wrong-arg-types", "kwarg": "wrong-arg-types", "ret": "bad-return-type",
+            "assign": "annotation-type-mismatch"}
 TRACE_CFG = "INIT TInit\nNEXT TNext\nINVARIANT Ok\nPOSTCONDITION Done\n"
 MODEL_CFG = "SPECIFICATION Spec\nCONSTANT Export = %s\nINVARIANT Laws\nINVARIANT NonTrivial\nINVARIANT ExportInv\n"
 
@@ -158,6 +159,11 @@ def module_for(ann, vals):
   for k, v in enumerate(vals):
     lines.append("f(%s)" % vsrc(v))
     where[len(lines)] = ("arg", k)
+  # the same parameter annotation on a keyword-only parameter, value passed by keyword
+  lines += ["def g(*, x: %s) -> None:" % a, "  pass"]
+  for k, v in enumerate(vals):
+    lines.append("g(x=%s)" % vsrc(v))
+    where[len(lines)] = ("kwarg", k)
   for k, v in enumerate(vals):
     lines.append("def r%d() -> %s:" % (k, a))
     lines.append("  return %s" % vsrc(v))
@@ -309,14 +315,14 @@ def main():
                                "forms": sorted({c["val"][1]["form"] for c in fam})})
     run.sample({"ann": asrc(edge[0]["ann"]) if edge else "", "val": _vkey(edge[0]["val"]) if edge else "",
                 "site": edge[0]["site"] if edge else "", "err": edge[0]["err"] if edge else False})
-    common.require(len(fam) == 3 * len(fnvals) * (maxn + 1),
+    common.require(len(fam) == len(SITE_ERR) * len(fnvals) * (maxn + 1),
                    "vacuity: function values x Callable[[..], ..] incomplete")
     table = {(vkey(v), n) for v, n in exp["cancall"]}
     n_adm = sum(1 for c in fam if (vkey(c["val"]), len(c["ann"][2]) - 1) in table)
     run.put("function_cases_expected", {"no_error": n_adm, "error": len(fam) - n_adm})
     common.require(n_adm >= 300 and len(fam) - n_adm >= 300,
                    "vacuity: expected outcomes of the function-value family not mixed")
-    common.require(len(edge) >= 150 and {c["site"] for c in edge} == {"arg", "ret", "assign"} and
+    common.require(len(edge) >= 150 and {c["site"] for c in edge} >= {"arg", "ret", "assign"} and
                    {c["val"][1]["form"] for c in edge} == {"def", "lambda", "method"},
                    "vacuity: keyword-only-default boundary not exercised")
     common.require(len(nested) >= 3 * 2 * sum(1 for v in fnvals if v[1]["form"] == "def") and
